@@ -316,4 +316,261 @@ theorem normalize_of_inRange (m : RelayToClientMsg) (h : m.InRange) : m.normaliz
     simp only [RelayToClientMsg.normalize, statusOfCode_code s h]
   | _ => rfl
 
+/-! ## The key cache -/
+
+/-- Invariant of the cache: every stored key is one `validKey` accepts, and the number of
+stored keys is within the capacity. -/
+def KeyCache.Inv (vk : Bytes → Bool) (c : KeyCache) : Prop :=
+  (∀ k ∈ c.entries, vk k = true) ∧ c.entries.length ≤ c.cap
+
+theorem KeyCache.new_inv (vk : Bytes → Bool) (cap : Nat) : (KeyCache.new cap).Inv vk :=
+  ⟨(by intro k hk; cases hk), Nat.zero_le _⟩
+
+/-- What the uncached decoders do with a key slice. -/
+def directKey (vk : Bytes → Bool) (slice : Bytes) : Res Bytes :=
+  if vk slice then .ok slice else rerr .invalidKey
+
+theorem KeyCache.keyFromSlice_spec (vk : Bytes → Bool) (c : KeyCache) (slice : Bytes)
+    (hlen : slice.length = 32) (hinv : c.Inv vk) :
+    (c.keyFromSlice vk slice).1 = directKey vk slice ∧
+    (c.keyFromSlice vk slice).2.Inv vk ∧ (c.keyFromSlice vk slice).2.cap = c.cap := by
+  obtain ⟨hvalid, hbound⟩ := hinv
+  unfold KeyCache.keyFromSlice directKey
+  by_cases h0 : c.cap = 0
+  · rw [if_pos h0]
+    exact ⟨rfl, ⟨hvalid, hbound⟩, rfl⟩
+  · have hl : ¬ slice.length ≠ 32 := by omega
+    rw [if_neg h0, if_neg hl]
+    cases hf : c.entries.find? (fun k => k == slice) with
+    | some k =>
+      dsimp only
+      have hmem : k ∈ c.entries := List.mem_of_find?_eq_some hf
+      have heq : k = slice := by
+        have := List.find?_some hf
+        simpa using this
+      have hvk : vk slice = true := heq ▸ hvalid k hmem
+      rw [if_pos hvk]
+      refine ⟨by rw [heq], ⟨?_, ?_⟩, rfl⟩
+      · intro k' hk'
+        rcases List.mem_cons.mp hk' with e | e
+        · rw [e]; exact hvalid k hmem
+        · exact hvalid k' (List.mem_of_mem_erase e)
+      · show (k :: c.entries.erase k).length ≤ c.cap
+        rw [List.length_cons, List.length_erase_of_mem hmem]
+        have : 0 < c.entries.length := List.length_pos_of_mem hmem
+        omega
+    | none =>
+      dsimp only
+      by_cases hvk : vk slice = true
+      · rw [if_pos hvk, if_pos hvk]
+        refine ⟨rfl, ⟨?_, ?_⟩, rfl⟩
+        · intro k' hk'
+          have := List.mem_of_mem_take hk'
+          rcases List.mem_cons.mp this with e | e
+          · rw [e]; exact hvk
+          · exact hvalid k' e
+        · show ((slice :: c.entries).take c.cap).length ≤ c.cap
+          rw [List.length_take]; omega
+      · rw [if_neg hvk, if_neg hvk]
+        exact ⟨rfl, ⟨hvalid, hbound⟩, rfl⟩
+
+theorem decodeKeyedDatagramsC_spec (vk : Bytes → Bool) (c : KeyCache) (content : Bytes)
+    (isBatch : Bool) (hinv : c.Inv vk) :
+    (decodeKeyedDatagramsC vk c content isBatch).1 = decodeKeyedDatagrams vk content isBatch ∧
+    (decodeKeyedDatagramsC vk c content isBatch).2.Inv vk ∧
+    (decodeKeyedDatagramsC vk c content isBatch).2.cap = c.cap := by
+  unfold decodeKeyedDatagramsC decodeKeyedDatagrams
+  by_cases hshort : content.length < keyLen
+  · rw [if_pos hshort, if_pos hshort]
+    exact ⟨rfl, hinv, rfl⟩
+  · rw [if_neg hshort, if_neg hshort]
+    have hle : keyLen ≤ content.length := by omega
+    have hst : sliceTo keyLen content = .ok (content.take keyLen) := by
+      unfold sliceTo; rw [if_pos hle]
+    have hsf : sliceFrom keyLen content = .ok (content.drop keyLen) := by
+      unfold sliceFrom; rw [if_pos hle]
+    rw [hst, hsf]
+    dsimp only
+    have hl32 : (content.take keyLen).length = 32 := by
+      rw [List.length_take]; simp only [keyLen] at hle ⊢; omega
+    obtain ⟨h1, h2, h3⟩ := KeyCache.keyFromSlice_spec vk c (content.take keyLen) hl32 hinv
+    rcases hk : c.keyFromSlice vk (content.take keyLen) with ⟨r, c'⟩
+    rw [hk] at h1 h2 h3
+    dsimp only at h1 h2 h3 ⊢
+    subst h1
+    unfold directKey
+    by_cases hv : vk (content.take keyLen) = true
+    · rw [if_pos hv]
+      simp only [hv, Bool.not_true, Bool.false_eq_true, if_false]
+      cases hd : Datagrams.decode (content.drop keyLen) isBatch with
+      | error f => exact ⟨rfl, h2, h3⟩
+      | ok d => exact ⟨rfl, h2, h3⟩
+    · rw [if_neg hv]
+      have hv' : vk (content.take keyLen) = false := by
+        cases h : vk (content.take keyLen) with
+        | true => exact absurd h hv
+        | false => rfl
+      simp only [hv', Bool.not_false, if_true, rerr]
+      exact ⟨trivial, h2, h3⟩
+
+theorem decodeR2CC_spec (vk : Bytes → Bool) (c : KeyCache) (v : Version) (bs : Bytes)
+    (hinv : c.Inv vk) :
+    (decodeR2CC vk c v bs).1 = decodeR2C vk v bs ∧ (decodeR2CC vk c v bs).2.Inv vk ∧
+    (decodeR2CC vk c v bs).2.cap = c.cap := by
+  unfold decodeR2CC decodeR2C
+  cases hft : decodeFrameType bs with
+  | error f => exact ⟨rfl, hinv, rfl⟩
+  | ok tc =>
+    obtain ⟨t, content⟩ := tc
+    dsimp only
+    by_cases hbig : content.length > maxPacketSize
+    · rw [if_pos hbig, if_pos hbig]; exact ⟨rfl, hinv, rfl⟩
+    · rw [if_neg hbig, if_neg hbig]
+      cases t with
+      | relayToClientDatagram =>
+        dsimp only
+        obtain ⟨h1, h2, h3⟩ := decodeKeyedDatagramsC_spec vk c content
+          (FrameType.relayToClientDatagram == .relayToClientDatagramBatch) hinv
+        rcases hk : decodeKeyedDatagramsC vk c content
+          (FrameType.relayToClientDatagram == .relayToClientDatagramBatch) with ⟨r, c'⟩
+        rw [hk] at h1 h2 h3
+        dsimp only at h1 h2 h3 ⊢
+        rw [← h1]
+        cases r with
+        | error f => exact ⟨rfl, h2, h3⟩
+        | ok kd => obtain ⟨k, d⟩ := kd; exact ⟨rfl, h2, h3⟩
+      | relayToClientDatagramBatch =>
+        dsimp only
+        obtain ⟨h1, h2, h3⟩ := decodeKeyedDatagramsC_spec vk c content
+          (FrameType.relayToClientDatagramBatch == .relayToClientDatagramBatch) hinv
+        rcases hk : decodeKeyedDatagramsC vk c content
+          (FrameType.relayToClientDatagramBatch == .relayToClientDatagramBatch) with ⟨r, c'⟩
+        rw [hk] at h1 h2 h3
+        dsimp only at h1 h2 h3 ⊢
+        rw [← h1]
+        cases r with
+        | error f => exact ⟨rfl, h2, h3⟩
+        | ok kd => obtain ⟨k, d⟩ := kd; exact ⟨rfl, h2, h3⟩
+      | endpointGone =>
+        dsimp only
+        by_cases hl : content.length ≠ keyLen
+        · rw [if_pos hl, if_pos hl]; exact ⟨rfl, hinv, rfl⟩
+        · rw [if_neg hl, if_neg hl]
+          have hl32 : content.length = 32 := by simp only [keyLen] at hl; omega
+          obtain ⟨h1, h2, h3⟩ := KeyCache.keyFromSlice_spec vk c content hl32 hinv
+          rcases hk : c.keyFromSlice vk content with ⟨r, c'⟩
+          rw [hk] at h1 h2 h3
+          dsimp only at h1 h2 h3 ⊢
+          subst h1
+          unfold directKey
+          cases hv : vk content with
+          | true => exact ⟨rfl, h2, h3⟩
+          | false => exact ⟨rfl, h2, h3⟩
+      | ping =>
+        dsimp only
+        cases decodePing content with
+        | error f => exact ⟨rfl, hinv, rfl⟩
+        | ok d => exact ⟨rfl, hinv, rfl⟩
+      | pong =>
+        dsimp only
+        cases decodePing content with
+        | error f => exact ⟨rfl, hinv, rfl⟩
+        | ok d => exact ⟨rfl, hinv, rfl⟩
+      | health =>
+        dsimp only
+        by_cases hv : v ≠ .v1
+        · rw [if_pos hv, if_pos hv]; exact ⟨rfl, hinv, rfl⟩
+        · rw [if_neg hv, if_neg hv]
+          cases hu : utf8Valid content with
+          | true => exact ⟨rfl, hinv, rfl⟩
+          | false => exact ⟨rfl, hinv, rfl⟩
+      | restarting =>
+        dsimp only
+        cases decodeRestarting content with
+        | error f => exact ⟨rfl, hinv, rfl⟩
+        | ok ab => obtain ⟨a, b⟩ := ab; exact ⟨rfl, hinv, rfl⟩
+      | status =>
+        dsimp only
+        by_cases hv : v ≠ .v2
+        · rw [if_pos hv, if_pos hv]; exact ⟨rfl, hinv, rfl⟩
+        · rw [if_neg hv, if_neg hv]
+          cases Status.decode content with
+          | error f => exact ⟨rfl, hinv, rfl⟩
+          | ok s => exact ⟨rfl, hinv, rfl⟩
+      | _ => exact ⟨rfl, hinv, rfl⟩
+
+theorem decodeC2RC_spec (vk : Bytes → Bool) (c : KeyCache) (bs : Bytes) (hinv : c.Inv vk) :
+    (decodeC2RC vk c bs).1 = decodeC2R vk bs ∧ (decodeC2RC vk c bs).2.Inv vk ∧
+    (decodeC2RC vk c bs).2.cap = c.cap := by
+  unfold decodeC2RC decodeC2R
+  cases hft : decodeFrameType bs with
+  | error f => exact ⟨rfl, hinv, rfl⟩
+  | ok tc =>
+    obtain ⟨t, content⟩ := tc
+    dsimp only
+    by_cases hbig : content.length > maxPacketSize
+    · rw [if_pos hbig, if_pos hbig]; exact ⟨rfl, hinv, rfl⟩
+    · rw [if_neg hbig, if_neg hbig]
+      cases t with
+      | clientToRelayDatagram =>
+        dsimp only
+        obtain ⟨h1, h2, h3⟩ := decodeKeyedDatagramsC_spec vk c content
+          (FrameType.clientToRelayDatagram == .clientToRelayDatagramBatch) hinv
+        rcases hk : decodeKeyedDatagramsC vk c content
+          (FrameType.clientToRelayDatagram == .clientToRelayDatagramBatch) with ⟨r, c'⟩
+        rw [hk] at h1 h2 h3
+        dsimp only at h1 h2 h3 ⊢
+        rw [← h1]
+        cases r with
+        | error f => exact ⟨rfl, h2, h3⟩
+        | ok kd => obtain ⟨k, d⟩ := kd; exact ⟨rfl, h2, h3⟩
+      | clientToRelayDatagramBatch =>
+        dsimp only
+        obtain ⟨h1, h2, h3⟩ := decodeKeyedDatagramsC_spec vk c content
+          (FrameType.clientToRelayDatagramBatch == .clientToRelayDatagramBatch) hinv
+        rcases hk : decodeKeyedDatagramsC vk c content
+          (FrameType.clientToRelayDatagramBatch == .clientToRelayDatagramBatch) with ⟨r, c'⟩
+        rw [hk] at h1 h2 h3
+        dsimp only at h1 h2 h3 ⊢
+        rw [← h1]
+        cases r with
+        | error f => exact ⟨rfl, h2, h3⟩
+        | ok kd => obtain ⟨k, d⟩ := kd; exact ⟨rfl, h2, h3⟩
+      | ping =>
+        dsimp only
+        cases decodePing content with
+        | error f => exact ⟨rfl, hinv, rfl⟩
+        | ok d => exact ⟨rfl, hinv, rfl⟩
+      | pong =>
+        dsimp only
+        cases decodePing content with
+        | error f => exact ⟨rfl, hinv, rfl⟩
+        | ok d => exact ⟨rfl, hinv, rfl⟩
+      | _ => exact ⟨rfl, hinv, rfl⟩
+
+theorem decodeFrameC_spec (vk : Bytes → Bool) (c : KeyCache) (f : Frame) (hinv : c.Inv vk) :
+    (decodeFrameC vk c f).1 = decodeFrame vk f ∧ (decodeFrameC vk c f).2.Inv vk ∧
+    (decodeFrameC vk c f).2.cap = c.cap := by
+  cases f with
+  | r2c v bs =>
+    obtain ⟨h1, h2, h3⟩ := decodeR2CC_spec vk c v bs hinv
+    exact ⟨by simp only [decodeFrameC, decodeFrame, h1], h2, h3⟩
+  | c2r bs =>
+    obtain ⟨h1, h2, h3⟩ := decodeC2RC_spec vk c bs hinv
+    exact ⟨by simp only [decodeFrameC, decodeFrame, h1], h2, h3⟩
+
+theorem runCached_spec (vk : Bytes → Bool) :
+    ∀ (fs : List Frame) (c : KeyCache), c.Inv vk →
+      (runCached vk c fs).1 = fs.map (decodeFrame vk) ∧ (runCached vk c fs).2.Inv vk ∧
+      (runCached vk c fs).2.cap = c.cap := by
+  intro fs
+  induction fs with
+  | nil => intro c hinv; exact ⟨rfl, hinv, rfl⟩
+  | cons f fs ih =>
+    intro c hinv
+    obtain ⟨h1, h2, h3⟩ := decodeFrameC_spec vk c f hinv
+    obtain ⟨i1, i2, i3⟩ := ih (decodeFrameC vk c f).2 h2
+    refine ⟨?_, i2, by rw [← h3]; exact i3⟩
+    simp only [runCached, List.map_cons, h1, i1]
+
 end IrohModel.C10
